@@ -22,6 +22,11 @@ func propSingles(key int, E []uint64) []SOp {
 			}
 		}
 	}
+	for _, slot := range E {
+		for root := 1; root <= 2; root++ {
+			ops = append(ops, SOp{Kind: "prop", Ents: []Ent{{Key: key, ByKey: true, Pad: true, Slot: slot, Root: root}}})
+		}
+	}
 	return ops
 }
 
